@@ -498,6 +498,7 @@ func (vt *Model) print(seq ansi.Print) {
 	}
 	if vt.cursor.col >= vt.margin.right+1 && vt.mode.decawm {
 		vt.lastCol = true
+		vt.cursor.col = vt.margin.right
 	}
 }
 
